@@ -89,7 +89,7 @@ def guarded(ctx, rule, key, f, *a, **kw):
     try:
         return f(ctx, *a, **kw)
     except interp.Unanalysable as e:
-        ctx.unanalysable(rule, key, site=getattr(e, 'site', None), detail={'reason': str(e)})
+        ctx.unanalysable(rule, key, site=getattr(e, "site", None), detail={"reason": str(e), "trace": traceback.format_exc()[-700:]})
     except Exception as e:  # a crash of the checker is never a pass
         ctx.unanalysable(rule, key, detail={'reason': 'checker exception: %r' % (e,), 'trace': traceback.format_exc()[-1500:]})
     return None
